@@ -140,7 +140,10 @@ func (root *Root) resolve(
 	t Type,
 	depth int) (result interface{}, ea []error) {
 
-	if depth <= 0 || IsNil(obj) {
+	if IsNil(obj) {
+		return nil, nil
+	}
+	if depth <= 0 {
 		// If not intended then generate an error later when trying to
 		// generate output.
 		return obj, nil
